@@ -315,6 +315,21 @@ theorem term_sound {g : Grammar} {s : List Char} {nd : Node} {loc : Nat} {o : Ou
   | idx => exact ⟨h1 rfl, .leaf hl⟩
   | hang => exact absurd rfl h3
 
+theorem optDefault_plain {g : Grammar} (hg : Plain g) {nd : Node} (hacts : nd.acts = []) (e : Nat)
+    (d : Option (List Char)) : optNoMatch nd (optDefault g e d) = dfltToks d := by
+  cases d with
+  | none => simp [optNoMatch, optDefault, dfltToks, hacts]
+  | some v =>
+    have : optDefault g e (some v) = [.s v] := by
+      unfold optDefault
+      cases hge : g[e]? with
+      | none => rfl
+      | some n =>
+        have hn := hg n (List.mem_of_getElem? hge)
+        simp only [plainNode, Bool.and_eq_true, List.isEmpty_iff] at hn
+        simp [hn.1.2]
+    simp [this, optNoMatch, dfltToks]
+
 theorem parseImpl_sound {g : Grammar} {s : List Char} {p : P} (hg : Plain g) (hp : AgreeP g s p) (nd : Node)
     (hn : plainNode nd = true) (loc : Nat) (a : Bool) : AgreesImpl g s nd loc (parseImpl g p nd s loc a) := by
   simp only [plainNode, Bool.and_eq_true, List.isEmpty_iff] at hn
@@ -380,22 +395,18 @@ theorem parseImpl_sound {g : Grammar} {s : List Char} {p : P} (hg : Plain g) (hp
     apply AgreesImpl.of_agrees
     exact Agrees.lift (fun r hr => .matchFirst hkind hr) (mfGo_sound hp a s.length loc es none)
   | opt e d =>
-    cases d with
-    | some v => simp [hkind, plainKind] at hk
-    | none =>
-      have h := hp e loc a false
-      simp only
-      cases hpe : p e loc a false with
-      | ok l ts => rw [hpe] at h; simp only [agrees_ok] at h; exact Sem.opt hkind h
-      | fail c l =>
-        rw [hpe] at h; simp only [agrees_fail] at h
-        obtain ⟨hc, hs⟩ := h
-        subst hc
-        have : optNoMatch nd (optDefault g e none) = [] := by simp [optNoMatch, optDefault, hacts]
-        simp only [this]
-        exact Sem.opt hkind hs
-      | idx => rw [hpe] at h; exact h.elim
-      | hang => trivial
+    have h := hp e loc a false
+    simp only
+    cases hpe : p e loc a false with
+    | ok l ts => rw [hpe] at h; simp only [agrees_ok] at h; exact Sem.opt hkind h
+    | fail c l =>
+      rw [hpe] at h; simp only [agrees_fail] at h
+      obtain ⟨hc, hs⟩ := h
+      subst hc
+      simp only [optDefault_plain hg hacts]
+      exact Sem.opt hkind hs
+    | idx => rw [hpe] at h; exact h.elim
+    | hang => trivial
   | many e ne one =>
     cases ne with
     | some v => simp [hkind, plainKind] at hk
@@ -445,6 +456,7 @@ theorem parseImpl_sound {g : Grammar} {s : List Char} {p : P} (hg : Plain g) (hp
     | hang => trivial
   | group e => exact AgreesImpl.of_agrees (enhance_sound hp nd e loc a (by simp [wrapped, hkind]))
   | suppress e => exact AgreesImpl.of_agrees (enhance_sound hp nd e loc a (by simp [wrapped, hkind]))
+  | combine e j => exact AgreesImpl.of_agrees (enhance_sound hp nd e loc a (by simp [wrapped, hkind]))
   | enhance e => exact AgreesImpl.of_agrees (enhance_sound hp nd e loc a (by simp [wrapped, hkind]))
   | forward e =>
     cases e with
@@ -868,7 +880,7 @@ theorem Sem.complete {g : Grammar} {s : List Char} (hg : Plain g) {t : Task} {r 
       rw [Nat.add_comm f1 f0] at this
       rw [this]; exact h2
     exact key _
-  | @opt nd loc e r hk _ ih =>
+  | @opt nd loc e d r hk _ ih =>
     intro hn hl
     obtain ⟨f, hf⟩ := ih hl
     refine ⟨f, fun a => ?_⟩
@@ -879,8 +891,7 @@ theorem Sem.complete {g : Grammar} {s : List Char} (hg : Plain g) {t : Task} {r 
     | some x => simp only [Ret] at h1; rw [h1]; rfl
     | none =>
       obtain ⟨l, h1⟩ := h1
-      have : optNoMatch nd (optDefault g e none) = [] := by simp [optNoMatch, optDefault, plain_acts hn]
-      rw [h1]; simp only [this]; rfl
+      rw [h1]; simp only [optDefault_plain hg (plain_acts hn)]; rfl
   | @manyFail nd loc e one hk _ ih =>
     intro hn hl
     obtain ⟨f, hf⟩ := ih hl
